@@ -653,6 +653,11 @@ class ShadowStore:
                     self.viol("C05", "served_out_of_order", "filter:get:granted-while-servable-smaller-key-pending",
                               {"granted": (rec.prio, rec.seq), "ahead": (a.prio, a.seq)})
                     break
+            if getattr(self, "late_mode", False):
+                # tokens are only seen when reserve_get returns (the store does not use env.event()): the order of the grants
+                # made inside one call is not observable, and with it the candidate set of a filtered retrieval
+                mon.counters["c06_filter_order_undecidable_late_tokens"] += 1
+                return
             others = [u for u in U if u is not x]
             if rec.filter is not None and getattr(rec.filter, "user", False):
                 # FIFO among the items satisfying the filter
